@@ -544,6 +544,19 @@ class Effects:
             args = tuple(self.subst(self.slicer.operand(fn, a), mapping) for a in c.args)
             out.append(Eff('CALLBACK', ('fnitem', c.decl), c, chain, mode == 'must', forall, args))
         # closures / fn items handed to the call may run: MAY effects only
+        if mode == 'must' and (c.decl or '').startswith(('std::result::Result::', 'std::option::Option::')) \
+                and (c.decl or '').endswith(('::and_then', '::map')) and len(c.args) == 2:
+            # `r.and_then(|x| write(x))?` / as the returned value: when the function succeeds, r was Ok/Some and the closure
+            # ran to success — provided the combinator's own result is not dropped
+            from .discard import result_fates, verdict
+            returned = bool(c.dest) and c.dest[0] == 0
+            if returned or verdict(result_fates(self.prog, fn, c)) == 'ok':
+                recv = self.slicer.operand(fn, c.args[0])
+                clv = self.slicer.operand(fn, c.args[1])
+                b = ('unwrap', self.slicer._ok_core(recv))
+                g, off = self._closure_fn(clv)
+                if g is not None:
+                    self._expand_closure(fn, c, clv, [b] if g.argc > off else [], forall, 'must', mapping, chain, stack, out, implied=b)
         if mode == 'may':
             gs = self.prog.fn_item_args(c)
             if gs:
